@@ -581,7 +581,12 @@ func (i *Interface) Purge(ctx context.Context, q *query.Query) (int, error) {
 		return 0, ErrReadOnly
 	}
 
-	return db.Purge(ctx, q, i.options.Local, i.options.Internal)
+	n, err := db.Purge(ctx, q, i.options.Local, i.options.Internal)
+	if i.cache != nil && n > 0 {
+		// Purged records may not be served from the read cache any more.
+		i.cache.Purge()
+	}
+	return n, err
 }
 
 // Subscribe subscribes to updates matching the given query.
